@@ -447,6 +447,11 @@ func handleDownload(c *Client, r *Response) (err error) {
 
 	if r.body != nil { // already read
 		body = io.NopCloser(bytes.NewReader(r.body))
+	} else if r.Err != nil {
+		// an earlier stage failed without leaving a body (a failed read or body transformer has
+		// consumed and closed r.Body): copying it would only replace that stage's error by
+		// "read on closed response body"
+		return nil
 	} else {
 		body = r.Body
 	}
